@@ -164,8 +164,12 @@ pub struct Obs {
 
 impl Obs {
     pub fn alarm(&mut self, prop: &'static str, step: u32, signature: &str, detail: String) {
-        // keep the first alarm per property (that is what gets reported and shrunk)
-        if self.alarms.iter().any(|a| a.prop == prop) {
+        // keep the first alarm per (property, signature)
+        if self
+            .alarms
+            .iter()
+            .any(|a| a.prop == prop && a.signature == signature)
+        {
             return;
         }
         self.alarms.push(Alarm {
